@@ -1971,6 +1971,27 @@ def payload_root(t):
     return s
 
 
+def origin_eq_test(subj, labels):
+    """`conn.origin() == ConnectionOrigin::Inbound` (or `!=`, either constant, negated): which origin the edge admits -
+    "Inbound" / "Outbound" (the type has exactly these two values), else None."""
+    n = normalize_cmp(subj)
+    if n is None or labels not in ({"true"}, {"false"}):
+        return None
+    neg, op, x, y = n
+    if op not in ("eq", "ne"):
+        return None
+    x, y = strip_identity(x), strip_identity(y)
+    if y[0] == "call":
+        x, y = y, x
+    if not (x[0] == "call" and name_matches(x[1], "anemo::connection::Connection::origin") and y[0] == "named"):
+        return None
+    which = y[1].split("::")[-1]
+    if which not in ("Inbound", "Outbound") or "ConnectionOrigin" not in y[1]:
+        return None
+    holds = ((labels == {"true"}) != neg) == (op == "eq")
+    return which if holds else ("Outbound" if which == "Inbound" else "Inbound")
+
+
 def deep_payload(t):
     """See through a value that was wrapped and unwrapped again on the way: `Ok(x)?`, `Poll::Ready(x)` matched as Ready,
     a helper's `phi(Ok{x} | Err{..})` followed by `?` - returns x. A term that is not such a round trip is returned
